@@ -45,6 +45,7 @@ import (
 	"time"
 
 	"github.com/nuetzliches/hookaido/internal/app"
+	"github.com/nuetzliches/hookaido/internal/config"
 	"github.com/nuetzliches/hookaido/internal/verifkit/runner"
 )
 
@@ -147,6 +148,7 @@ func init() {
 		layerByRoute[name] = &ly
 		routes[name] = routeInfo{pull: "/" + name, endpoint: "/e" + name, push: "/d" + name, url: "http://192.0.2.4/hook-" + ly.Key}
 	}
+	registerChgKinds() // configuration histories on such routes (change_test.go)
 }
 
 func layerOf(route string) *layer { return layerByRoute[route] }
@@ -313,7 +315,7 @@ func (ly *layer) directives() string {
 func (x *run) layerDSL() (routeBlocks, ingressExtra string) {
 	var b strings.Builder
 	for _, rk := range x.usedRoutes() {
-		ly := layerOf(rk)
+		ly := x.confLayer(rk) // a route with a configuration history (change_test.go): the step the file is at
 		if ly == nil {
 			continue
 		}
@@ -337,14 +339,19 @@ func (x *run) layerDSL() (routeBlocks, ingressExtra string) {
 // layersCompiled cross-checks the harness's reading of each layer against the compiled configuration (an
 // infrastructure error otherwise: the reference would be computed for a route that is configured differently).
 func (x *run) layersCompiled(a *app.VerifApp) bool {
+	// booted from the file as the application left it (after a configuration history): not the harness's text
+	return x.layersMatch(a.Running, x.onDisk)
+}
+
+func (x *run) layersMatch(running config.Compiled, skipHistories bool) bool {
 	for _, rk := range x.usedRoutes() {
-		ly := layerOf(rk)
-		if ly == nil {
+		ly := x.confLayer(rk)
+		if ly == nil || (skipHistories && chgOf(rk) != nil) {
 			continue
 		}
 		path := x.routeOf(mcase{Route: rk})
 		found := false
-		for _, rt := range a.Running.Routes {
+		for _, rt := range running.Routes {
 			if rt.Path != path {
 				continue
 			}
@@ -401,7 +408,7 @@ func (x *run) layersCompiled(a *app.VerifApp) bool {
 			if x.flow == flowPush && (len(rt.Deliveries) != 1 || rt.Deliveries[0].SigningHMAC.Enabled != (ly.Sign != "")) {
 				bad = append(bad, fmt.Sprintf("deliver signing %+v", rt.Deliveries))
 			}
-			if ly.GlobalRL && !a.Running.Ingress.RateLimit.Enabled {
+			if ly.GlobalRL && !running.Ingress.RateLimit.Enabled {
 				bad = append(bad, "ingress rate_limit not enabled")
 			}
 			if len(bad) > 0 {
@@ -436,7 +443,7 @@ func (x *run) authService(r *http.Request) (*http.Response, error) {
 	}
 	answer := ""
 	if u := r.URL.String(); strings.HasPrefix(u, authBase) {
-		if ly := layerOf("L-" + u[len(authBase):]); ly != nil && ly.Fwd != nil {
+		if ly := x.fwdLayer(u[len(authBase):]); ly != nil && ly.Fwd != nil {
 			if x.sub == nil {
 				x.sub = map[int][]subreq{}
 			}
@@ -456,6 +463,27 @@ func (x *run) authService(r *http.Request) (*http.Response, error) {
 		h.Add(a.N, a.V)
 	}
 	return reply(r, code, h), nil // a 302 carries no Location: the client hands it back as it is
+}
+
+// fwdLayer: the route configuration behind an auth service URL (the URL names the route): a layer route, or a route with
+// a configuration history - there the configuration in force for the request being served, else the last one.
+func (x *run) fwdLayer(key string) *layer {
+	if ly := layerOf("L-" + key); ly != nil {
+		return ly
+	}
+	if x.cur >= 0 && x.cur < len(x.cases) && chgBase(x.cases[x.cur].Route) == "C-"+key {
+		if ly := layerOf(x.cases[x.cur].Route); ly != nil && ly.Fwd != nil {
+			return ly
+		}
+	}
+	if k := chgOf("C-" + key); k != nil { // a stale authenticator of an earlier step: the service answers as it does for that step
+		for i := len(k.steps) - 1; i >= 0; i-- {
+			if ly := k.steps[i].ly; ly != nil && ly.Fwd != nil {
+				return ly
+			}
+		}
+	}
+	return nil
 }
 
 // authLines: the credentials the route's authentication asks for (docs/ingress.md), for the request about to be sent.
